@@ -35,8 +35,6 @@ def prologue (dsts : List String) : List Node :=
       (.exprStmt (.paren (.call fn [.arg none thisArg] d) d) d)
       (.atom "null") d ]
 
-def Config.dsts (c : Config) : List String := c.methods.map (·.dst)
-
 /-! ### transform_js -/
 
 structure ModelResult where
